@@ -19,6 +19,7 @@ def run(F, R, ctx):
     entry_cleanup_rule(F, R)
     queue_entry_rule(F, R)
     bounded_threshold_rule(F, R)
+    candidates_reconsidered_rule(F, R)
 
 
 def _run(F, R, ctx):
@@ -408,3 +409,35 @@ def bounded_threshold_rule(F, R):
                "roots in between — 6100 redefinitions of one global holding a 64 KiB string: 282 MiB resident instead of 102" % fn.short(),
                fn.loc(), sample=True)
     R.floor("C19.r", "functions that multiply the recycling threshold", n, 1)
+
+
+def candidates_reconsidered_rule(F, R):
+    R.rule("C19.s", "a shadowed global slot that is still referenced when the recycler looks at it is looked at again later: "
+                    "GlobalSlotRecycler::recycle takes every candidate out of FreeList.shadowed_slots (drain); the ones it finds "
+                    "unreferenced go to the free list, so the ones it finds referenced must go back into a candidate list of the "
+                    "FreeList (shadowed_slots or a later stage) — otherwise a redefined global whose old value was referenced at that "
+                    "moment (by an older closure that is dropped afterwards) is never reclaimed")
+    fn = F.one(r"^steel::values::closed::\{impl GlobalSlotRecycler\}::recycle$")
+    drains = [b for _, b in fn.calls() if re.search(r"Vec<T,A>\}::drain$", b["callee"]) and b["args"] and
+              any(re.search(r"\.shadowed_slots$", s_) for s_ in lib.alias_sources(fn, b["args"][0]))]
+    R.inst("C19.s", "recycle takes its candidates out of FreeList.shadowed_slots", bool(drains),
+           "GlobalSlotRecycler::recycle no longer drains FreeList.shadowed_slots (anchor changed)", fn.loc(), nontrivial=False)
+    back = []
+    for _, b in lib.deep_calls(F, fn, depth=2):
+        if re.search(r"Vec<T,A>\}::(push|extend|extend_from_slice|append)$", b["callee"]) and b["args"]:
+            # resolved in the function that makes the call: look the receiver up in every function of the family
+            for g in [fn] + [F.fns[c["callee"]] for _, c in lib.deep_calls(F, fn, depth=2) if c["callee"] in F.fns]:
+                try:
+                    srcs = lib.alias_sources(g, b["args"][0])
+                except Exception:
+                    continue
+                for s_ in srcs:
+                    m = re.search(r"free_list\.(\w+)$", s_)
+                    if m and m.group(1) != "free_list":
+                        back.append(m.group(1))
+    R.inst("C19.s", "GlobalSlotRecycler::recycle / candidates found referenced are put back into a candidate list", bool(back),
+           "GlobalSlotRecycler::recycle drains FreeList.shadowed_slots and pushes nothing back into a candidate list: a shadowed slot "
+           "that was still referenced during this pass (an older closure in a live list calls the older definition) is never looked "
+           "at again, and what it holds stays a root for the life of the engine — 150 redefinitions of a global holding a 1 MB "
+           "string, each older definition referenced by a closure in a list that is cleared afterwards: about 90 MB stay resident "
+           "after 1200 further definitions and a collection, against the same history without the list", fn.loc(), sample=True)
